@@ -23,7 +23,7 @@ class Context:
 from dateutil import parser as date_parser
 from dateutil.relativedelta import relativedelta
 from math import trunc, ceil, floor
-from decimal import Decimal, Context as DecimalContext, ROUND_HALF_UP, ROUND_UP, ROUND_DOWN
+from decimal import Decimal, Context as DecimalContext, ROUND_HALF_UP, ROUND_UP, ROUND_DOWN, InvalidOperation, DivisionByZero, Overflow
 from typing import Dict, List, Literal, Any, Callable
 import calendar
 import re
@@ -399,9 +399,11 @@ class ExcelInPython:
         else:
             raise TypeError('a number is required for rounding, not ' + type(number).__name__)
 
-        result = decimal_number.quantize(Decimal(1).scaleb(-int(num_digits)), rounding=rounding,
-                                         context=DecimalContext(prec=400))
-        return int(result) if isinstance(number, int) else float(result)
+        # a context of its own in every respect: precision, no inherited traps or flags of the host's default context
+        context = DecimalContext(prec=400, traps=[InvalidOperation, DivisionByZero, Overflow], flags=[])
+        result = decimal_number.quantize(context.scaleb(Decimal(1), -int(num_digits)), rounding=rounding, context=context)
+        # + 0.0: a negative amount rounded to nothing is 0, not -0.0
+        return int(result) if isinstance(number, int) else float(result) + 0.0
 
     def _round(self, number: float, num_digits: int):
         return self._decimal_round(number, num_digits, ROUND_HALF_UP)
